@@ -437,7 +437,7 @@ func main() {
 	}
 	newLocal := func(int) interface{} {
 		next, reset := gg.Cyclic(special)
-		return &loc{g: &gg.Gen{K: 2, M: 2, Depth: 3, NilSlice: true, Next: next}, reset: reset}
+		return &loc{g: &gg.Gen{K: 3, M: 2, Depth: 3, NilSlice: true, Next: next}, reset: reset}
 	}
 	total := func(st mc.Stats) {
 		var n int64
@@ -448,7 +448,7 @@ func main() {
 		}
 		r.Count("decode_calls", n)
 	}
-	st := r.Explore("noncollection", "full product of the 8 non-collection kinds (k=2,m=2) x 2 byte orders x 10 SRIDs x all encoders / decode paths / framings / 11 destinations", mc.Opts{MaxDev: -1, Split: 3, NewLocal: newLocal}, func(c *mc.Ctx) {
+	st := r.Explore("noncollection", "full product of the 8 non-collection kinds (k=3,m=2) x 2 byte orders x 10 SRIDs x all encoders / decode paths / framings / 11 destinations", mc.Opts{MaxDev: -1, Split: 3, NewLocal: newLocal}, func(c *mc.Ctx) {
 		l := c.Local().(*loc)
 		l.reset()
 		order := orders[c.Choose(2)]
